@@ -70,7 +70,20 @@ func vClosedByPeer(c *websocket.Conn, d time.Duration) bool {
 			if ne, ok := err.(interface{ Timeout() bool }); ok && ne.Timeout() {
 				return false
 			}
-			return true
+			// a close frame alone is not the end of the socket: the transport layer must see it closed too
+			u := c.UnderlyingConn()
+			u.SetReadDeadline(time.Now().Add(d))
+			buf := make([]byte, 256)
+			for {
+				_, e := u.Read(buf)
+				if e == nil {
+					continue
+				}
+				if ne, ok := e.(interface{ Timeout() bool }); ok && ne.Timeout() {
+					return false
+				}
+				return true
+			}
 		}
 	}
 }
